@@ -341,12 +341,12 @@ LIMITED = False
 class Prop:
     pid = 'C01'
     props_file = 'Props/C01.v'
-    required_theorems = ['export_inv_preserved', 'quiescent_view_eq_fresh_outside_known',
-                         'no_lost_withdrawal_outside_known', 'fresh_is_export_rules',
+    required_theorems = ['export_inv_preserved', 'quiescent_view_eq_fresh',
+                         'no_lost_withdrawal', 'fresh_is_export_rules',
                          'no_lost_withdrawal_refuted_by_id_keying',
                          'quiescent_view_eq_fresh_refuted_truncated_dump',
                          'quiescent_view_eq_fresh_refuted_unreported_llgr',
-                         'no_lost_withdrawal_refuted_refresh_race']
+                         'no_lost_withdrawal_refuted_inline_refresh']
     correspondence_name = ('Model/ExportTx.v step vs table::Table + event::export::process_nlri_change + '
                            'peer_tx::PendingTx (harness/daemon/export_c01_hx.rs)')
     rule = ('cases = (neighbour role/address/send-max/add-path, source peers, export policy, schedule of table '
@@ -370,7 +370,7 @@ class Prop:
         'correspondence cover the mismatch configuration, the theorems do not']
     assumptions = ['truthful change stream (Spec/ExportTxSpec.v truthful_run)',
                    'LLGR_STALE marking does not decide acceptance by the export policy (pol_marks_after_accept)',
-                   'route refresh processed with an empty event channel (open finding C01-refresh-race)']
+                   ]
 
     # ---- rendering
     def case_to_val(self, c):
@@ -384,7 +384,7 @@ class Prop:
 
     def case_to_coq(self, c):
         g = c['cfg']
-        cfg = ('{| g_keying := %s; g_limited := %s; g_max := %s; g_aptx := %s; g_hidden := %s; g_rej := %s |}' % (
+        cfg = ('{| g_keying := %s; g_limited := %s; g_inline := false; g_max := %s; g_aptx := %s; g_hidden := %s; g_rej := %s |}' % (
             KEYING, cbool(LIMITED), cN(g['max']), cbool(g['aptx']),
             clist([cN(x) for x in hidden_sources(g)]), clist([cN(3)] if g['policy'] else [])))
         labels = [label_coq(l) for ls in translate(c) for l in ls]
@@ -474,11 +474,11 @@ class Prop:
                 if rng.random() < 0.8:
                     ops.append(('register',))
         # settle: deliver everything, flush
-        pend = sum(1 for o in ops if o[0] in ('ins', 'rem')) + 4 * sum(1 for o in ops if o[0] in ('drop', 'llgr'))
+        pend = sum(1 for o in ops if o[0] in ('ins', 'rem', 'refresh')) + 4 * sum(1 for o in ops if o[0] in ('drop', 'llgr', 'nhv', 'stale', 'dropstale'))
         if rng.random() < 0.9:
             ops += [('deliver',)] * pend
             if any(o[0] == 'policy' for o in ops):
-                ops.append(('refresh',))          # soft reset out with the channel drained
+                ops += [('refresh',), ('deliver',)]   # soft reset out
             ops.append(('flush',))
         return ops
 
@@ -582,12 +582,26 @@ class Prop:
         for mx in (1, 2):
             cfg = self.mkcfg(mx, nsrc=2, policy=True)
             i0, i1 = ('ins', 0, 0, 1, 0, 0), ('ins', 1, 0, 3, 0, 0)
-            add('refresh', cfg, [('refresh',), R, ('refresh',), F, ('refresh',), ('refresh',), F])
-            add('refresh', cfg, [i0, i1, ('refresh',), R, F, ('refresh',), F, ('refresh',), ('refresh',), F])
-            add('policy', cfg, [i0, i1, R, F, ('policy', 1), ('refresh',), F, ('policy', 0), ('refresh',), F])
-            add('policy', cfg, [i0, i1, R, ('policy', 1), ('refresh',), F, ('policy', 0), ('refresh',), F])
-            add('policy', cfg, [R, F, ('policy', 1), i0, i1, D, D, ('refresh',), F, ('rem', 0, 0), D, ('policy', 0),
-                                ('refresh',), F])
+            RF = ('refresh',)
+            add('refresh', cfg, [RF, R, RF, D, F, RF, RF, D, D, F])
+            add('refresh', cfg, [i0, i1, RF, R, F, RF, D, F, RF, RF, F, D, D, F])
+            add('refresh', cfg, [i0, R, F, ('rem', 0, 0), i1, RF, D, D, D, F])       # walk behind queued changes
+            add('refresh', cfg, [i0, R, F, RF, ('rem', 0, 0), i1, D, D, D, F])       # changes behind the walk
+            add('policy', cfg, [i0, i1, R, F, ('policy', 1), RF, D, F, ('policy', 0), RF, D, F])
+            add('policy', cfg, [i0, i1, R, ('policy', 1), RF, D, F, ('policy', 0), RF, D, F])
+            add('policy', cfg, [R, F, ('policy', 1), i0, i1, D, D, RF, D, F, ('rem', 0, 0), D, ('policy', 0),
+                                RF, D, F])
+        # -- race: the history of the former finding C01-refresh-race and its relatives: a refresh while
+        #    the removal of a prefix is queued and its dest_id already names another (hidden or visible) prefix
+        for mx in (1, 2):
+            for hidden in (False, True):
+                srcs = [(1, EBGP, 65010), (2, RSC if hidden else EBGP, 65011)]
+                cfg = self.mkcfg(mx, srcs=srcs)
+                for tail in ([D, D, D, F], [F, D, F, D, F, D, F], [D, F, D, D, F]):
+                    add('race', cfg, [R, ('ins', 0, 2, 0, 0, 0), D, ('rem', 0, 2), ('ins', 1, 1, 2, 0, 0), F,
+                                      ('refresh',)] + tail)
+                    add('race', cfg, [R, ('ins', 0, 2, 0, 0, 0), D, F, ('rem', 0, 2), ('ins', 1, 1, 2, 0, 0),
+                                      ('ins', 0, 2, 1, 0, 0), ('refresh',), D] + tail)
         # -- nhflap: the next hop of the best / of another candidate goes away and comes back
         for mx in (1, 2):
             for t in (0, 1):
@@ -597,6 +611,14 @@ class Prop:
                 add('nhflap', cfg, base + [R, F, ('nhv', t, 0), ('nhv', t, 1), D, D, D, D, F])
                 add('nhflap', cfg, [R, ('nhv', t, 0)] + base + [D, D, D, F, ('nhv', t, 1), D, D, F])
                 add('nhflap', cfg, base + [R, F, ('nhv', t, 0), D, D, ('rem', 0, 0), D, ('nhv', t, 1), D, D, F])
+        # -- peerdown: Table::drop with the dropped peer holding the best / a lesser / the only path
+        for mx in (1, 2):
+            for who in (0, 1):
+                cfg = self.mkcfg(mx, nsrc=3)
+                base = [('ins', 0, 0, 0, 0, 0), ('ins', 1, 0, 1, 0, 0), ('ins', 2, 0, 2, 0, 0),
+                        ('ins', who, 1, 0, 0, 0), ('ins', 1 - who, 2, 1, 1, 0)]
+                add('peerdown', cfg, base + [R, F, ('drop', who), D, D, D, F])
+                add('peerdown', cfg, base + [R, ('drop', who), D, D, D, F, ('drop', 2), D, D, F])
         # -- session: start on an empty RIB, restart with things pending, stop, GR stale and purge
         for mx in (1, 2):
             cfg = self.mkcfg(mx, nsrc=2)
@@ -736,16 +758,22 @@ class Prop:
         if obs == [-1]:
             return 'panic in the export path'
         established = False
-        dirty = False
+        dirty, refreshed = False, False
         for k, o in enumerate(obs):
             if o[0] == 4:
                 established = True
             if o[0] == 7:
                 established = False
             if o[0] == 8:
-                dirty = True        # policy replaced: judged again after the soft reset out
-            if o[0] in (4, 5):
+                dirty, refreshed = True, False   # policy replaced: judged again once a soft reset
+            if o[0] == 5:                        # out issued afterwards has been processed
+                refreshed = True
+            if o[0] == 4:
                 dirty = False
+            if dirty and refreshed and o[0] in (3, 6):
+                chk0 = o[4] if o[0] == 3 else o[2]
+                if 999 not in chk0[-2]:
+                    dirty = False
             if dirty:
                 continue
             if not established:
@@ -765,7 +793,7 @@ class Prop:
                     if (r[0], r[1]) not in fk and r[0] not in chan:
                         return ('obs %d: route (prefix %d, path id %d) is in the neighbour\'s Adj-RIB-In, a fresh session '
                                 'would not be sent it, and no withdrawal is pending or undelivered' % (k, r[0], r[1]))
-                if not chan and (mirror != fresh or not same):
+                if not chan and (mirror != fresh or not same):   # (a queued walk shows as 999)
                     return 'obs %d: quiescent, but the neighbour\'s view differs from a from-scratch dump' % k
         return None
 
